@@ -28,7 +28,7 @@ M_DRIFT = 50
 def gen_cases(seed, tier):
     rng = np.random.default_rng([seed, 4])
     n = 170 if tier == "quick" else 1700
-    devs = [1] if tier == "quick" else [1, 1, 1, 2, 3, 4]
+    devs = [1, 1, 1, 2, 3] if tier == "quick" else [1, 1, 1, 2, 3, 4]
     cases = []
     for i in range(n):
         spec = gen.random_spec(rng, smin=3, smax=40, avg="unichain")
